@@ -23,6 +23,7 @@ from sa.terms import T
 from sa.pyfront import Program
 
 RULES = {
+    "R-C18-l": "with several fact columns and per-row weights the constructor fields stay (rows, columns): paired transposes around every combination with the weight vector",
     "R-C18-k": "weighted quantile, invariance under rescaling all weights: quantities derived from the weights are compared only with 0 or with each other, never with an absolute tolerance (isclose / allclose default atol) or a non-zero literal",
     "R-C18-j": "standard deviation, dispatch and arithmetic: one column is handed over whole, several columns are filled one by one (column i of every row array into column i of every region, for all i); a cell needs at least 2 rows; both fill routines scale the weighted variance by N / (N - 1); valid and missing rows are counted per column",
     "R-C18-i": "minimum / maximum: a cell that receives a value is marked valid in the same breath (value store and validity store under the same guards), per branch: ignoring - the valid rows of the cell, non-empty; propagating - all rows, non-empty and all valid",
@@ -719,6 +720,11 @@ def main(tier):
     rule_j(prog, rep)
     rule_i(prog, rep)
     rule_k(prog, rep)
+    CL = AT.Collector()
+    nl = AT.rule_row_layout(prog, CL, "R-C18-l", modules=("xfuncs",), classes=("stddev", "quantile", "corrcoef", "covariance"))
+    for rule, status, where, cons, detail, wit in CL.items:
+        rep.add(rule, where, cons, status, detail, True, wit)
+    rep.floor("R-C18-l", 6, nl)
     import c17
     sub17 = core.Report("C17", level="other", rules=c17.RULES, tier=tier)
     st17 = {"events": 0, "mods": 0, "diagnostic": {}, "exceptions": {}, "regions": 0, "shortcuts": 0}
